@@ -272,9 +272,11 @@ func runCheck(prop, tier, cfgPath, evDir, knownPath, replayDir string, verbose b
 	if kb, err := os.ReadFile(knownPath); err == nil {
 		json.Unmarshal(kb, &known)
 	}
-	timeout := 60 * time.Second
+	// per-obligation budget: every claimed obligation is normally discharged in well under 20 s, but the time the
+	// solvers need varies from run to run with the order in which facts are printed; the budget leaves a wide margin
+	timeout := 120 * time.Second
 	if tier == "thorough" {
-		timeout = 180 * time.Second
+		timeout = 300 * time.Second
 	}
 	if timeoutS > 0 {
 		timeout = time.Duration(timeoutS) * time.Second
